@@ -53,6 +53,7 @@ def plan_dp(tier, seed, props):
     # the second document spells its zeros -0 (the same number: nothing changes for the specification)
     items += [item("kinds", NONE, 0.03 if q else 0.3, mode="negzero")]
     if listonly:
+        items += [item("huge2", NONE, 0.35 if q else 1.0, False)]
         if not q:
             items += [item("huge", NONE, 1.0, False)]
         return items
@@ -186,6 +187,7 @@ def plan_jp(tier, seed, props):
              item("siblings", NONE, 0.2 if q else 1.0, False, max=3), item("kinds", NONE, 0.03 if q else 0.5, False, max=3),
              item("intkeys", NONE, 0.3 if q else 1.0, False, max=3),
              item("long_key", NONE, 0.04 if q else 0.8, False, max=1 if q else 2), item("wide", NONE, 0.25 if q else 1.0, False, max=1 if q else 2),
+             item("huge2", NONE, 0.35 if q else 1.0, False, max=1),
              # set-mode diffs: paths that must be refused
              item("scalarr_4_3", SET, 0.01 if q else 0.05, False, max=1), item("keyed_2", KEYS, 0.1 if q else 0.5, False, max=1),
              item("nestarr_2", MSET, 0.01 if q else 0.05, False, max=1)]
